@@ -349,3 +349,150 @@ m(
     "yearly lines filtered by > from-year",
     ("computed_data.py", "return [y for y in unfiltered_yearly_gain_loss_list if y.year >= from_year]", "return [y for y in unfiltered_yearly_gain_loss_list if y.year > from_year]"),
 )
+# ---------------------------------------------------------------- C11
+m(
+    "c11_swap_in_numeric_fields",
+    ["C11"],
+    "two numeric fields swapped when building the IN argument pack",
+    (
+        "ods_parser.py",
+        '        argument_pack = _process_constructor_argument_pack(configuration, argument_pack, internal_id, "InTransaction")\n',
+        '        argument_pack = _process_constructor_argument_pack(configuration, argument_pack, internal_id, "InTransaction")\n        if argument_pack.get("fiat_in_no_fee") is not None and argument_pack.get("fiat_in_with_fee") is not None:\n            argument_pack["fiat_in_no_fee"], argument_pack["fiat_in_with_fee"] = argument_pack["fiat_in_with_fee"], argument_pack["fiat_in_no_fee"]\n',
+    ),
+)
+m("c11_eight_decimals", ["C11"], "numbers taken with 8 decimals", ("ods_parser.py", 'RP2Decimal(f"{value:.11f}")', 'RP2Decimal(f"{value:.8f}")'))
+m(
+    "c11_artificial_fee_from_crypto_in",
+    ["C11"],
+    "artificial fee transaction built from crypto_in",
+    ("ods_parser.py", "                crypto_out_no_fee=ZERO,\n                crypto_fee=transaction.crypto_fee,", "                crypto_out_no_fee=ZERO,\n                crypto_fee=transaction.crypto_in,"),
+)
+m(
+    "c11_split_drops_supplied_fiat",
+    ["C11"],
+    "crypto-fee split forgets the exchange-supplied fiat_in_with_fee",
+    ("ods_parser.py", "                fiat_in_with_fee=transaction.fiat_in_with_fee,\n                fiat_fee=transaction.fiat_fee,\n                row=internal_id,", "                fiat_in_with_fee=None,\n                fiat_fee=transaction.fiat_fee,\n                row=internal_id,"),
+)
+m(
+    "c11_header_map_off_by_one",
+    ["C11"],
+    "OUT argument pack reads one column to the right for crypto_fee",
+    (
+        "configuration.py",
+        '        return self.__get_table_constructor_argument_pack(data, "out", self.__out_header)',
+        '        pack = self.__get_table_constructor_argument_pack(data, "out", self.__out_header)\n        position = self.__out_header["crypto_fee"]\n        if position + 1 < len(data) and isinstance(data[position + 1], float):\n            pack["crypto_fee"] = data[position + 1]\n        return pack',
+    ),
+)
+m(
+    "c11_last_row_skipped",
+    ["C11"],
+    "a data row directly followed by TABLE END two rows later is skipped (row count off by one)",
+    ("ods_parser.py", "        elif current_table_type is not None and current_table_row_count > 1:", "        elif current_table_type is not None and current_table_row_count > 2:"),
+)
+m(
+    "c11_wrong_default_with_fee",
+    ["C11"],
+    "default fiat_in_with_fee computed without the fee",
+    ("in_transaction.py", "            self.__fiat_in_with_fee = self.__fiat_in_no_fee + self.__fiat_fee\n", "            self.__fiat_in_with_fee = self.__fiat_in_no_fee\n"),
+)
+# ---------------------------------------------------------------- C12
+m(
+    "c12_bad_rows_skipped",
+    ["C12"],
+    "rows that fail to parse are skipped instead of aborting",
+    (
+        "ods_parser.py",
+        "            _create_and_process_transaction(configuration, row_values, current_table_type, i + 1, unfiltered_transaction_sets, artificial_transaction_list)\n",
+        "            try:\n                _create_and_process_transaction(configuration, row_values, current_table_type, i + 1, unfiltered_transaction_sets, artificial_transaction_list)\n            except Exception:  # pylint: disable=broad-except\n                pass\n",
+    ),
+)
+m(
+    "c12_no_price_check",
+    ["C12"],
+    "zero spot price accepted on out-transactions",
+    ("out_transaction.py", "            if spot_price == ZERO:\n                raise RP2ValueError", "            if False and spot_price == ZERO:\n                raise RP2ValueError"),
+)
+m(
+    "c12_received_gt_sent_accepted",
+    ["C12"],
+    "received > sent accepted",
+    ("intra_transaction.py", "        if self.__crypto_sent < self.__crypto_received:", "        if False and self.__crypto_sent < self.__crypto_received:"),
+)
+m(
+    "c12_missing_table_end_accepted",
+    ["C12"],
+    "missing TABLE END at the end of the sheet accepted",
+    ("ods_parser.py", '    if current_table_type is not None:\n        raise RP2ValueError(f"TABLE END not found for {current_table_type} table")', "    if False and current_table_type is not None:\n        raise RP2ValueError(f\"TABLE END not found for {current_table_type} table\")"),
+)
+m(
+    "c12_method_conflict_not_fatal",
+    ["C12"],
+    "-m together with [accounting_methods] only logs an error",
+    ('rp2_main.py', '                "use only one of them."\n            )\n            sys.exit(1)', '                "use only one of them."\n            )'),
+)
+m(
+    "c12_asset_mismatch_accepted",
+    ["C12"],
+    "entry of another asset accepted by the set",
+    ("abstract_entry_set.py", "        if entry.asset != self.asset:", "        if False and entry.asset != self.asset:"),
+)
+m(
+    "c12_reports_inside_asset_loop",
+    ["C12"],
+    "report generators run inside the asset loop (partial output before the failing asset)",
+    (
+        "rp2_main.py",
+        "            asset_to_computed_data[asset] = computed_data\n",
+        "            asset_to_computed_data[asset] = computed_data\n            _find_and_run_report_generators(configuration=configuration, package_paths=[REPORT_GENERATOR_PACKAGE, f\"{REPORT_GENERATOR_PACKAGE}.{country.country_iso_code}\"], args=args, country=country, years_2_accounting_method_names=years_2_accounting_method_names, asset_to_computed_data=asset_to_computed_data, from_date=configuration.from_date, to_date=configuration.to_date)\n",
+    ),
+)
+m(
+    "c12_unknown_holder_accepted",
+    ["C12"],
+    "unknown holder accepted",
+    ("configuration.py", "        if value not in self.__holders:", "        if False and value not in self.__holders:"),
+)
+# ---------------------------------------------------------------- C16
+m(
+    "c16_f2_reintroduced",
+    ["C16"],
+    "pre-fix F2: summary hyperlink lookup without guard",
+    ("plugin/report/rp2_full_report.py", "        if asset_and_year not in self.__tax_sheet_year_2_row:", "        if False and asset_and_year not in self.__tax_sheet_year_2_row:"),
+)
+m(
+    "c16_template_by_language_only",
+    ["C16"],
+    "template looked up by language only (country directory dropped)",
+    ("plugin/report/abstract_ods_generator.py", '        country_path = f"{country.country_iso_code}/" if country else ""', '        country_path = "us/" if country else ""'),
+)
+# ---------------------------------------------------------------- C18
+m(
+    "c18_urlopen_at_import",
+    ["C18"],
+    "version check over the network at import (wrapped in try/except)",
+    ("rp2_main.py", '_VERSION: str = "1.7.2"', '_VERSION: str = "1.7.2"\ntry:\n    import urllib.request\n\n    urllib.request.urlopen("http://127.0.0.1:9/version", timeout=0.2)\nexcept Exception:  # pylint: disable=broad-except\n    pass'),
+)
+m(
+    "c18_subprocess_in_logger",
+    ["C18"],
+    "logger shells out to uname",
+    ("logger.py", 'Path("./log").mkdir(parents=True, exist_ok=True)', 'Path("./log").mkdir(parents=True, exist_ok=True)\nimport subprocess\n\nsubprocess.run(["uname"], capture_output=True, check=False)'),
+)
+m(
+    "c18_cache_file_in_home",
+    ["C18"],
+    "cache file written to the home directory",
+    ("rp2_main.py", "        LOGGER.info(\"Country: %s\", country.country_iso_code)", "        with open(os.path.expanduser(\"~/.rp2_cache\"), \"a\", encoding=\"utf-8\") as _cache:\n            _cache.write(\"x\")\n        LOGGER.info(\"Country: %s\", country.country_iso_code)"),
+)
+m(
+    "c18_input_opened_rw",
+    ["C18"],
+    "input spreadsheet opened r+ before parsing",
+    ("ods_parser.py", "    return ezodf.opendoc(input_file_path)", "    with open(input_file_path, \"r+b\"):\n        pass\n    return ezodf.opendoc(input_file_path)"),
+)
+m(
+    "c18_socket_via_dunder_import",
+    ["C18"],
+    "host name resolved through __import__('socket') at run time",
+    ("rp2_main.py", "        LOGGER.info(\"Generation Language: %s\", args.generation_language)", "        try:\n            __import__(\"socket\").gethostbyname(\"localhost\")\n        except Exception:  # pylint: disable=broad-except\n            pass\n        LOGGER.info(\"Generation Language: %s\", args.generation_language)"),
+)
